@@ -29,6 +29,38 @@ func failO(o ev.Outcome, finding, format string, a ...any) ev.Outcome {
 
 // ------------------------------------------------------------------ generators
 
+// rapid's integer and float ranges are deliberately biased towards small
+// magnitudes (geometric bit length), which is what shrinking wants but makes
+// "uniform over 2^60 positions" land in the first few thousand.  uni mixes two
+// rapid draws through splitmix64: still a pure function of rapid's draws
+// (replays, shrinks towards small seeds) but spread over all 64 bits.
+func uni(t *rapid.T, label string) uint64 {
+	a := rapid.Uint64().Draw(t, label+".ua")
+	b := rapid.Uint64().Draw(t, label+".ub")
+	z := a + 0x9e3779b97f4a7c15*(b+1)
+	z = (z ^ (z >> 30)) * 0xbf58476d1ce4e5b9
+	z = (z ^ (z >> 27)) * 0x94d049bb133111eb
+	return z ^ (z >> 31)
+}
+
+func uniInt64(t *rapid.T, label string, lo, hi int64) int64 {
+	if hi <= lo {
+		return lo
+	}
+	return lo + int64(uni(t, label)%uint64(hi-lo+1))
+}
+
+func uniFloat(t *rapid.T, label string, lo, hi float64) float64 {
+	f := lo + (hi-lo)*float64(uni(t, label)>>11)/(1<<53)
+	if f < lo {
+		f = lo
+	}
+	if f > hi {
+		f = hi
+	}
+	return f
+}
+
 // cellAt returns the cell of the lattice square (face, level, a, b), found
 // through the centre of the square (generator only; checks never trust it).
 func cellAt(face, level int, a, b int64) s2.CellID {
@@ -43,11 +75,15 @@ func cellAt(face, level int, a, b int64) s2.CellID {
 // ones (columns and rows 0, 1, 2^L-2, 2^L-1, 2^k, 2^k-1: cells on face edges,
 // cube corners and coarse cell boundaries at every level).
 func genCell(t *rapid.T, label string) s2.CellID {
-	if rapid.IntRange(0, 2).Draw(t, label+".src") == 0 {
-		return gen.CellID(t, label)
-	}
 	face := rapid.IntRange(0, 5).Draw(t, label+".f")
 	level := rapid.IntRange(0, 30).Draw(t, label+".l")
+	switch rapid.IntRange(0, 5).Draw(t, label+".src") {
+	case 0:
+		return gen.CellID(t, label)
+	case 1:
+		// uniform over the positions of the level
+		return s2.CellIDFromFacePosLevel(face, uni(t, label+".pos")&(1<<61-1), level)
+	}
 	n := int64(1) << uint(level)
 	coord := func(l string) int64 {
 		var v int64
@@ -68,7 +104,7 @@ func genCell(t *rapid.T, label string) s2.CellID {
 				}
 			}
 		default:
-			v = rapid.Int64Range(0, n-1).Draw(t, l+".v")
+			v = uniInt64(t, l+".v", 0, n-1)
 		}
 		if v < 0 {
 			v = 0
@@ -86,6 +122,18 @@ func genCell(t *rapid.T, label string) s2.CellID {
 // (1,u,v) and re-set each minor coordinate to fl(ratio·major) ± k ulps.
 func snapped(t *rapid.T, label string) s2.Point {
 	id := genCell(t, label+".c")
+	if rapid.Bool().Draw(t, label+".fine") {
+		// fine cells at arbitrary positions: boundary values with arbitrary mantissas
+		lv := rapid.IntRange(22, 30).Draw(t, label+".fl")
+		n := int64(1) << uint(lv)
+		// 1/2 of these in s,t ∈ [0.2,0.3): there |u| < 1/2 has the smallest ulp while
+		// du/ds is still > 2, so the uv->st->ij round-off is largest in ulps of u
+		lo, hi := int64(0), n-1
+		if rapid.Bool().Draw(t, label+".band") {
+			lo, hi = n/5, 3*n/10
+		}
+		id = cellAt(rapid.IntRange(0, 5).Draw(t, label+".ff"), lv, uniInt64(t, label+".fa", lo, hi), uniInt64(t, label+".fb", lo, hi))
+	}
 	c := s2.CellFromCellID(id)
 	b := c.BoundUV()
 	pick := func(l string, lo, hi float64) (float64, bool) {
@@ -97,7 +145,7 @@ func snapped(t *rapid.T, label string) s2.Point {
 		case 2:
 			return rapid.SampledFrom([]float64{-1, 0, 1, lo, hi}).Draw(t, l+".s"), true
 		default:
-			return rapid.Float64Range(lo, hi).Draw(t, l+".f"), false
+			return uniFloat(t, l+".f", lo, hi), false
 		}
 	}
 	u, ub := pick(label+".u", b.X.Lo, b.X.Hi)
@@ -116,7 +164,7 @@ func snapped(t *rapid.T, label string) s2.Point {
 			continue
 		}
 		ratio := rc[a] * rc[w] // rc[w] = ±1
-		k := rapid.IntRange(-3, 3).Draw(t, fmt.Sprintf("%s.k%d", label, a))
+		k := int(uniInt64(t, fmt.Sprintf("%s.k%d", label, a), -8, 8))
 		qc[a] = gen.Ulps(ratio*qc[w], k)
 	}
 	p := s2.Point{Vector: r3.Vector{X: qc[0], Y: qc[1], Z: qc[2]}}
@@ -187,9 +235,6 @@ func checkPoint(c ptCase) ev.Outcome {
 	if !mValid(id) || mLevel(id) != 30 || !lid.IsValid() || !lid.IsLeaf() || leaf.Level() != 30 || lid.Level() != 30 {
 		return fail("leaf-invalid", "CellFromPoint(%v) = %#x is not a valid leaf cell", p, id)
 	}
-	if !leaf.ContainsPoint(p) {
-		return fail("leaf-not-containing", "CellFromPoint(p).ContainsPoint(p) is false for p=%v (cell %v)", c.P, lid)
-	}
 	F := leaf.Face()
 	if F != int(id>>61) || F != lid.Face() {
 		return fail("face-mismatch", "Cell.Face()=%d, CellID.Face()=%d, top bits %d", F, lid.Face(), id>>61)
@@ -214,6 +259,17 @@ func checkPoint(c ptCase) ev.Outcome {
 	o.Ratios = map[string]float64{"exact_uv_outside_leaf_rect/dblEpsilon": exf / eps}
 	if ex.Cmp(rat2eps) > 0 {
 		return failO(o, "leaf-far", "exact (u,v) of p=%v lies %.3g·eps outside BoundUV of CellFromPoint(p)=%v", c.P, exf/eps, lid)
+	}
+	if !leaf.ContainsPoint(p) {
+		// Narrow class: the point is outside the leaf's rectangle by more than
+		// ContainsPoint's margin (so ContainsPoint itself answers correctly for its
+		// margin) but by no more than 2·eps: the uv->st->ij round-off of
+		// CellFromPoint exceeds the dblEpsilon that ContainsPoint allows for it.
+		finding := "leaf-not-containing"
+		if ex.Cmp(ratOf(0.75*eps)) > 0 {
+			finding = "contains-margin-below-roundoff"
+		}
+		return failO(o, finding, "CellFromPoint(p).ContainsPoint(p) is false for p=%v (cell %v; exact (u,v) is %.3g·eps outside its BoundUV)", c.P, lid, exf/eps)
 	}
 	// independent lattice cell of p through the exact inverse transform
 	mi, mj := exactLeafIndex(ru), exactLeafIndex(rv)
@@ -395,7 +451,9 @@ func genSteps(t *rapid.T, level int, idx uint64) int64 {
 	case 4:
 		return n - int64(idx) + rapid.Int64Range(-2, 2).Draw(t, "steps.e")
 	case 5:
-		return rapid.Int64Range(-n, n).Draw(t, "steps.u")
+		return uniInt64(t, "steps.u", -n, n)
+	case 6:
+		return int64(uni(t, "steps.w"))
 	default:
 		return rapid.Int64().Draw(t, "steps.any")
 	}
@@ -408,7 +466,7 @@ func genIDCase(t *rapid.T) idCase {
 		Other: uint64(genRelative(t, "o", id)),
 		Steps: genSteps(t, id.Level(), mIndex(uint64(id))),
 		Lvl:   rapid.IntRange(0, 30).Draw(t, "lvl"),
-		Noise: rapid.Uint64().Draw(t, "noise"),
+		Noise: uni(t, "noise"),
 	}
 }
 
@@ -425,7 +483,18 @@ func checkID(c idCase) ev.Outcome {
 	l := mLevel(id)
 	k := mIndex(id)
 	n := mCount(l)
-	o.Class = fmt.Sprintf("L%02d", l)
+	switch {
+	case l == 0:
+		o.Class = "L00"
+	case l <= 10:
+		o.Class = "L01-10"
+	case l <= 20:
+		o.Class = "L11-20"
+	case l <= 29:
+		o.Class = "L21-29"
+	default:
+		o.Class = "L30"
+	}
 	first, last := k == 0, k == n-1
 	o.NonTrivial = true
 	if !x.IsValid() || x.Level() != l || x.Face() != int(id>>61) || x.Pos() != id&(1<<61-1) || x.IsLeaf() != (l == 30) {
@@ -608,7 +677,10 @@ func genRaw(t *rapid.T) uint64 {
 	case 0:
 		return rapid.SampledFrom([]uint64{0, ^uint64(0), 1, 1 << 63, 6 << 61, 6<<61 | 1, 7<<61 | 1, 1 << 62, 1 << 60, 1 << 61}).Draw(t, "raw.s")
 	case 1:
-		return rapid.Uint64().Draw(t, "raw.u")
+		if rapid.Bool().Draw(t, "raw.small") {
+			return rapid.Uint64().Draw(t, "raw.u")
+		}
+		return uni(t, "raw.w")
 	case 2:
 		return id<<1 | id>>63 // lsb on an odd bit
 	case 3:
@@ -1098,7 +1170,7 @@ func maxExhaustiveLevel() int {
 }
 
 func genBlock(t *rapid.T) blockCase {
-	k := rapid.IntRange(0, 6*(maxExhaustiveLevel()+1)-1).Draw(t, "block")
+	k := int(uni(t, "block") % uint64(6*(maxExhaustiveLevel()+1)))
 	return blockCase{Face: k % 6, Level: k / 6}
 }
 
@@ -1181,8 +1253,13 @@ func genLL(t *rapid.T) llCase {
 		lat = rapid.SampledFrom(special).Draw(t, "slat")
 		lng = rapid.SampledFrom(special).Draw(t, "slng") * 2
 	case 1:
-		lat = rapid.Float64Range(-90, 90).Draw(t, "lat")
-		lng = rapid.Float64Range(-180, 180).Draw(t, "lng")
+		if rapid.Bool().Draw(t, "simple") {
+			lat = rapid.Float64Range(-90, 90).Draw(t, "lat")
+			lng = rapid.Float64Range(-180, 180).Draw(t, "lng")
+		} else {
+			lat = uniFloat(t, "ulat", -90, 90)
+			lng = uniFloat(t, "ulng", -180, 180)
+		}
 	case 2:
 		lat = float64(rapid.IntRange(-900000000, 900000000).Draw(t, "e7lat")) / 1e7
 		lng = float64(rapid.IntRange(-1800000000, 1800000000).Draw(t, "e7lng")) / 1e7
@@ -1259,24 +1336,24 @@ func checkLL(c llCase) ev.Outcome {
 
 func init() {
 	ev.Define("point_to_leaf_and_ancestors", ev.Options{
-		Rule: "unit points: 1/2 'snapped' (minor coordinates re-set to fl(boundary·major) ±0..3 ulps for boundary values of cells of every level incl. face edges, cube corners, u=0), rest uniform/cube-symmetric/exponent-spread/plane/cell-derived ±4 ulps. Oracle: exact rational (u,v)=(y/x,…) against the leaf's BoundUV (bound 2·eps outside, stated before running), independent lattice cell via integer square roots of the exact inverse quadratic transform, bit model of Parent, lattice nesting of all 31 ancestors, ContainsPoint at all 31 levels, two-sided ContainsPoint of an edge-neighbour/arbitrary cell against exact membership. Non-trivial = exact u or v within 4·2^-52 of a boundary of the leaf cell.",
+		Rule:  "unit points: 1/2 'snapped' (minor coordinates re-set to fl(boundary·major) ±0..8 ulps for boundary values of cells of every level incl. face edges, cube corners, u=0), rest uniform/cube-symmetric/exponent-spread/plane/cell-derived ±4 ulps. Oracle: exact rational (u,v)=(y/x,…) against the leaf's BoundUV (bound 2·eps outside, stated before running), independent lattice cell via integer square roots of the exact inverse quadratic transform, bit model of Parent, lattice nesting of all 31 ancestors, ContainsPoint at all 31 levels, two-sided ContainsPoint of an edge-neighbour/arbitrary cell against exact membership. Non-trivial = exact u or v within 4·2^-52 of a boundary of the leaf cell.",
 		Quick: 160000, Thorough: 5000000}, genPtCase, checkPoint)
 	ev.Define("id_algebra", ev.Options{
-		Rule: "valid ids of all levels (uniform, path-biased, lattice-biased to face edges/corners) with a related second id (ancestor, descendant, range ends, curve neighbours, same-prefix) and step counts (small, ±k·N±r, to/past both ends, int64 extremes). Oracle: curve-index model (cell = k-th of its level; id=(2k+1)·4^(30-l)), big-integer Advance/AdvanceWrap, leaf-interval Contains/Intersects, brute-force CommonAncestorLevel and MaxTile by its documented definition plus the documented tiling loop. All cases count as non-trivial; class = level and relation.",
+		Rule:  "valid ids of all levels (uniform, path-biased, lattice-biased to face edges/corners) with a related second id (ancestor, descendant, range ends, curve neighbours, same-prefix) and step counts (small, ±k·N±r, to/past both ends, int64 extremes). Oracle: curve-index model (cell = k-th of its level; id=(2k+1)·4^(30-l)), big-integer Advance/AdvanceWrap, leaf-interval Contains/Intersects, brute-force CommonAncestorLevel and MaxTile by its documented definition plus the documented tiling loop. All cases count as non-trivial; class = level and relation.",
 		Quick: 120000, Thorough: 4000000}, genIDCase, checkID)
 	ev.Define("token_string", ev.Options{
-		Rule: "arbitrary uint64 (valid ids, 0, ^0, face 6/7, lsb on odd bit, one flipped bit, random) and texts (tokens/strings of them truncated, zero-padded to >16, upper-cased, with inserted/replaced bad characters incl. NUL and non-ASCII, leading zeros, random hex and digit strings). Oracle: separately written formatter/parsers (hex right-padded with zeros; malformed -> 0). Non-trivial = malformed text or a token that is not the canonical one.",
+		Rule:  "arbitrary uint64 (valid ids, 0, ^0, face 6/7, lsb on odd bit, one flipped bit, random) and texts (tokens/strings of them truncated, zero-padded to >16, upper-cased, with inserted/replaced bad characters incl. NUL and non-ASCII, leading zeros, random hex and digit strings). Oracle: separately written formatter/parsers (hex right-padded with zeros; malformed -> 0). Non-trivial = malformed text or a token that is not the canonical one.",
 		Quick: 120000, Thorough: 3000000}, genTokCase, checkTok)
 	ev.Define("hierarchy_on_lattice", ev.Options{
-		Rule: "one valid id of any level; its lattice square is read from BoundUV by bit-exact match with the published transform. Integer facts: parent square = containing quadrant, four children = four distinct quadrants with consecutive ones sharing a side, next cell along the curve (NextWrap, incl. 5 face transitions and the wrap) shares a full side on the cube surface, centre point maps back to the cell and lies on the centre lattice line exactly, IJ/UV edge coordinates and sizes, Cell.Children == CellFromCellID(child) bit for bit. Non-trivial = cell on a face edge / cube corner or the curve step leaves the parent's quadrant or the face.",
+		Rule:  "one valid id of any level; its lattice square is read from BoundUV by bit-exact match with the published transform. Integer facts: parent square = containing quadrant, four children = four distinct quadrants with consecutive ones sharing a side, next cell along the curve (NextWrap, incl. 5 face transitions and the wrap) shares a full side on the cube surface, centre point maps back to the cell and lies on the centre lattice line exactly, IJ/UV edge coordinates and sizes, Cell.Children == CellFromCellID(child) bit for bit. Non-trivial = cell on a face edge / cube corner or the curve step leaves the parent's quadrant or the face.",
 		Quick: 120000, Thorough: 4000000}, genCellCase, checkHierarchy)
 	ev.Define("neighbors", ev.Options{
-		Rule: "one valid id of any level (1/3 uniform/path-biased, 2/3 lattice-biased to face edges and cube corners), AllNeighbors level +0..+3 (1/10: +4..+6), VertexNeighbors level < cell level. Oracle: integer cube-surface model — the set of all squares of the requested level whose closed square meets the cell's closed square (or the closest ancestor vertex), enumerated over all six faces; reported set must equal it (sound and complete), ids valid, of the requested level, leaf-interval disjoint; EdgeNeighbors[k] must contain side k and be 4 distinct cells; Cell.Vertex of cells sharing a lattice corner bit-identical. Non-trivial = the cell touches a face edge or cube corner (wrap path).",
+		Rule:  "one valid id of any level (1/3 uniform/path-biased, 2/3 lattice-biased to face edges and cube corners), AllNeighbors level +0..+3 (1/10: +4..+6), VertexNeighbors level < cell level. Oracle: integer cube-surface model — the set of all squares of the requested level whose closed square meets the cell's closed square (or the closest ancestor vertex), enumerated over all six faces; reported set must equal it (sound and complete), ids valid, of the requested level, leaf-interval disjoint; EdgeNeighbors[k] must contain side k and be 4 distinct cells; Cell.Vertex of cells sharing a lattice corner bit-identical. Non-trivial = the cell touches a face edge or cube corner (wrap path).",
 		Quick: 100000, Thorough: 3000000}, genNbrCase, checkNeighbors)
 	ev.Define("exhaustive_face_level", ev.Options{
-		Rule: "Case = (face, level), level 0..7 quick / 0..9 thorough; Check enumerates EVERY id of that face and level: id -> square is injective onto the 4^level squares of the face (hence bijective), parent quadrant, curve continuity to the next id (last id of a face steps to the next face), centre round trip, token/string round trip, EdgeNeighbors, AllNeighbors at +0..+3 and VertexNeighbors at -1..-3 against the cube-surface model, shared vertices bit-identical. Counts 'visits.fF.LL' show which blocks were drawn (complete enumeration only if all are > 0); results of passing blocks are cached per process.",
+		Rule:  "Case = (face, level), level 0..7 quick / 0..9 thorough; Check enumerates EVERY id of that face and level: id -> square is injective onto the 4^level squares of the face (hence bijective), parent quadrant, curve continuity to the next id (last id of a face steps to the next face), centre round trip, token/string round trip, EdgeNeighbors, AllNeighbors at +0..+3 and VertexNeighbors at -1..-3 against the cube-surface model, shared vertices bit-identical. Counts 'visits.fF.LL' show which blocks were drawn (complete enumeration only if all are > 0); results of passing blocks are cached per process.",
 		Quick: 1600, Thorough: 4800}, genBlock, checkBlock)
 	ev.Define("latlng_entry_points", ev.Options{
-		Rule: "valid LatLngs (poles, antimeridian, special angles, uniform, E7-rounded, lat/lng of boundary-snapped points) and a valid id. CellIDFromLatLng/CellFromLatLng/CellFromPoint∘PointFromLatLng agree, the leaf contains the point and its centre is within one leaf diagonal; id.LatLng() is valid, maps back into the cell and is within 1e-14 rad (a priori bound, DESIGN 2.5) of id.Point().",
+		Rule:  "valid LatLngs (poles, antimeridian, special angles, uniform, E7-rounded, lat/lng of boundary-snapped points) and a valid id. CellIDFromLatLng/CellFromLatLng/CellFromPoint∘PointFromLatLng agree, the leaf contains the point and its centre is within one leaf diagonal; id.LatLng() is valid, maps back into the cell and is within 1e-14 rad (a priori bound, DESIGN 2.5) of id.Point().",
 		Quick: 60000, Thorough: 1500000}, genLL, checkLL)
 }
